@@ -81,7 +81,7 @@ Print Assumptions gen_board_constants_are_the_model.
 
 (* ---- log.py: EventIO.write ---- *)
 Theorem gen_sanitize_is_the_model : forall s, gen_sanitize s = sanitize s.
-Proof. intros s. reflexivity. Qed.
+Proof. intros s. unfold gen_sanitize, sanitize, ESC. cbv zeta. reflexivity. Qed.
 Print Assumptions gen_sanitize_is_the_model.
 
 (* ---- path.py: write_bytes ---- *)
